@@ -21,8 +21,22 @@ def run(ck, tier, seed):
     rn = vlib.tlc("Tags.tla", "Tags_neg.cfg", timeout=600, coverage=False)
     if rn.violation not in ("StrOk", "TagOk"):
         raise vlib.Broken("negative control Tags_neg not refuted (got %r)" % rn.violation)
+    # Padauk with the tags of its first Sill languages rewritten to every length a tag can have: the empty tag (0: asking
+    # for it, or for four spaces, means the font's defaults), one, two and three characters
+    import struct
+    from fontgen import sfnt
+    import corpus
+    S = sfnt.Sfnt(os.path.join(corpus.F, "Padauk.ttf"))
+    t = {k: S.table(k) for k in S.order}
+    sill = bytearray(t["Sill"])
+    nl = struct.unpack(">H", sill[4:6])[0]
+    for i, tag in enumerate([0, 0x6B000000, 0x6B730000, 0x6B737A00][:nl]):
+        sill[12 + 8 * i:16 + 8 * i] = struct.pack(">I", tag)
+    t["Sill"] = bytes(sill)
+    staged = os.path.join(tmp, "padauk_shorttags.ttf")
+    open(staged, "wb").write(sfnt.build_sfnt(t))
     exe = vlib.build_harness("san")
-    h = vlib.run_harness(exe, ["tags", cases, 2 if tier == "quick" else 3, seed] + utfcommon.FONTS, timeout=3000)
+    h = vlib.run_harness(exe, ["tags", cases, 2 if tier == "quick" else 3, seed] + utfcommon.FONTS + [staged], timeout=3000)
     vlib.absorb(ck, h)
     if h.summary:
         ck.traces += h.summary["extra"]["calls"]
